@@ -58,6 +58,12 @@ pub struct SchedStats {
     pub switches: u64,
     pub switches_inside_op: u64,
     pub crashes: u64,
+    /// scheduling points where the caller could not proceed (lock held by a descheduled task)
+    #[serde(default)]
+    pub blocked_yields: u64,
+    /// scheduling points that came from sync primitives / atomics (facade build only)
+    #[serde(default)]
+    pub sync_points: u64,
     /// site -> [hit, switched here, crashed here]
     pub sites: BTreeMap<String, [u64; 3]>,
 }
@@ -69,6 +75,8 @@ impl SchedStats {
         self.switches += o.switches;
         self.switches_inside_op += o.switches_inside_op;
         self.crashes += o.crashes;
+        self.blocked_yields += o.blocked_yields;
+        self.sync_points += o.sync_points;
         for (k, v) in &o.sites {
             let e = self.sites.entry(k.clone()).or_insert([0; 3]);
             for i in 0..3 {
@@ -89,6 +97,10 @@ pub struct State {
     pub trace: u64,
     pub stats: SchedStats,
     site_ids: BTreeMap<&'static str, u64>,
+    /// consecutive blocked yields with no task making progress in between
+    blocked_streak: u64,
+    /// set when every runnable task is blocked on another: (site, streak)
+    pub deadlock: Option<String>,
 }
 
 pub struct Sim {
@@ -136,6 +148,8 @@ impl Sim {
                 trace: 0,
                 stats: SchedStats::default(),
                 site_ids: BTreeMap::new(),
+                blocked_streak: 0,
+                deadlock: None,
             }),
             cvs: (0..n_tasks).map(|_| Condvar::new()).collect(),
             main_cv: Condvar::new(),
@@ -158,12 +172,31 @@ impl Sim {
         }
     }
 
-    /// Blocks the main thread until every task has exited.
-    pub fn wait_all_done(&self) {
+    /// Blocks the main thread until every task has exited. Returns false if no
+    /// scheduling decision happened for `stall_secs` (a task is blocked in the
+    /// kernel while holding the baton: a hang of the simulation, not a verdict).
+    pub fn wait_all_done(&self, stall_secs: u64) -> bool {
         let mut st = self.lock();
+        let mut last = st.stats.decisions;
+        let mut since = std::time::Instant::now();
         while st.alive.iter().any(|a| *a) {
-            st = self.main_cv.wait(st).unwrap_or_else(|e| e.into_inner());
+            let (g, _) = self
+                .main_cv
+                .wait_timeout(st, std::time::Duration::from_millis(500))
+                .unwrap_or_else(|e| e.into_inner());
+            st = g;
+            if st.stats.decisions != last {
+                last = st.stats.decisions;
+                since = std::time::Instant::now();
+            } else if since.elapsed().as_secs() >= stall_secs {
+                return false;
+            }
         }
+        true
+    }
+
+    pub fn deadlock(&self) -> Option<String> {
+        self.lock().deadlock.clone()
     }
 
     pub fn snapshot(&self) -> (Vec<u8>, u64, SchedStats) {
@@ -190,6 +223,10 @@ impl Sim {
             }
         };
         st.stats.points += 1;
+        st.blocked_streak = 0;
+        if site.starts_with("sync:") {
+            st.stats.sync_points += 1;
+        }
         st.trace = fold(st.trace, sid ^ ((id as u64) << 56));
         st.stats.sites.entry(site.to_string()).or_insert([0; 3])[0] += 1;
         let next = st.choose(id, site, false);
@@ -213,6 +250,43 @@ impl Sim {
         st.stats.crashes += 1;
         st.stats.sites.entry(site.to_string()).or_insert([0; 3])[2] += 1;
         st.trace = fold(st.trace, 0xC4A5 ^ site_hash(site));
+    }
+
+    /// The caller cannot proceed until another task releases something. Some *other*
+    /// task must run (uniformly chosen, whatever the policy). Returns false when there
+    /// is nobody else to run; `Err(())` when every task has been blocked for so long
+    /// that the episode is deadlocked.
+    fn yield_blocked(&self, id: usize, site: &'static str) -> Result<bool, ()> {
+        let mut st = self.lock();
+        debug_assert_eq!(st.current, id, "task ran without the baton");
+        st.stats.points += 1;
+        st.stats.blocked_yields += 1;
+        st.stats.sites.entry(site.to_string()).or_insert([0; 3])[0] += 1;
+        st.blocked_streak += 1;
+        let limit = 2000 + 500 * st.alive.len() as u64;
+        if st.blocked_streak > limit {
+            if st.deadlock.is_none() {
+                st.deadlock = Some(format!("{} consecutive blocked scheduling points at {}: every runnable task waits for another", st.blocked_streak, site));
+            }
+            return Err(());
+        }
+        let others = st.others(id, None);
+        if others.is_empty() {
+            return Ok(false);
+        }
+        let next = others[st.rng.usize_below(others.len())];
+        st.decisions.push(next as u8);
+        st.stats.decisions += 1;
+        st.trace = fold(st.trace, 0xB10C ^ ((id as u64) << 8) ^ next as u64);
+        st.stats.switches += 1;
+        if st.in_op[id] {
+            st.stats.switches_inside_op += 1;
+        }
+        st.stats.sites.get_mut(site).unwrap()[1] += 1;
+        st.current = next;
+        self.cvs[next].notify_one();
+        let _st = self.wait_for_baton(st, id);
+        Ok(true)
     }
 
     fn task_exit(&self, id: usize) {
@@ -354,7 +428,28 @@ pub fn hook(site: &'static str) {
     sim.yield_point(id, site);
 }
 
+/// Hook installed into the std/core facades (facade build only): a scheduling point at
+/// every sync-primitive or atomic access; `blocked` = the caller must wait for another task.
+pub fn sync_hook(site: &'static str, blocked: bool) -> bool {
+    if !blocked {
+        let is_task = CUR.with(|c| c.borrow().is_some());
+        hook(site);
+        return is_task;
+    }
+    let info = CUR.with(|c| c.borrow().as_ref().map(|t| (t.sim.clone(), t.id)));
+    let Some((sim, id)) = info else { return false };
+    match sim.yield_blocked(id, site) {
+        Ok(y) => y,
+        Err(()) => {
+            // deadlock: kill this operation so that the episode can end; the episode reports I6
+            std::panic::panic_any(crate::SimCrash("deadlock"));
+        }
+    }
+}
+
 pub fn install_hook() {
+    #[cfg(feature = "facade")]
+    fqcore::__fqsim::install(sync_hook);
     // false only if already installed by this process, which is fine
     let _ = fast_qr::verif_hooks::install(hook);
 }
